@@ -206,10 +206,24 @@ def gen_mapping(r: Any, without_list: bool) -> list[dict[str, Any]]:
 
 
 def to_field_spec(f: dict[str, Any]) -> dict[str, Any]:
+    """the user-facing FieldSpec of a field; the equivalent spellings the configuration accepts (a single alternative as
+    a plain string or a one-element list, key_value / value_paths left out when nothing is looked up, key_paths as one
+    string) are all used, chosen by a hash of the field so that a case always gets the same spelling"""
+    style = len(json.dumps(f, sort_keys=True)) % 4
+
     def one(part: list[dict[str, Any]], k: str) -> Any:
-        return part[0][k] if len(part) == 1 else [a[k] for a in part]
-    return {"key_paths": [one(p, "kp") for p in f["parts"]], "key_value": [one(p, "kv") for p in f["parts"]],
-            "value_paths": [one(p, "vp") for p in f["parts"]], "value_type": "array" if f["array"] else "string"}
+        if len(part) == 1 and style != 3:
+            return part[0][k]
+        return [a[k] for a in part]
+    spec: dict[str, Any] = {"key_paths": [one(p, "kp") for p in f["parts"]], "key_value": [one(p, "kv") for p in f["parts"]],
+                            "value_paths": [one(p, "vp") for p in f["parts"]],
+                            "value_type": "array" if f["array"] else "string"}
+    no_lookup = all(a["kv"] is None and a["vp"] is None for p in f["parts"] for a in p)
+    if no_lookup and style in (1, 2):
+        del spec["key_value"], spec["value_paths"]
+        if style == 2 and len(f["parts"]) == 1 and len(f["parts"][0]) == 1:
+            spec["key_paths"] = f["parts"][0][0]["kp"]
+    return spec
 
 
 def tagged(v: Any) -> Any:
